@@ -30,6 +30,7 @@ Proof. unfold charge. destruct (bal s a - fee <? 0); simpl; auto. Qed.
 
 Lemma step_gap astr s o : gap (step astr s o).1 = gap s.
 Proof.
+  unfold step. destruct (validate o); [|reflexivity].
   destruct o as [accr|a amt fee|a amt fee|a amt fee|a amt fee|a amt fee]; simpl.
   - destruct (mature (scan_und astr) (height s + 1) (bal s) (pend s)) as [b1 p1].
     destruct (mature (scan_rw astr) (height s + 1) b1 (rpend s)) as [b2 rp1]. reflexivity.
@@ -37,14 +38,14 @@ Proof.
     match goal with |- gap (charge ?s0 ?s1 ?a ?f).1 = _ =>
       destruct (charge_cases s0 s1 a f) as [-> | ->]; [reflexivity|] end.
     unfold gap; simpl. rewrite asum_insert. lia.
-  - destruct ((aget (active s) a - amt <? 0) || (pool s - amt <? 0)); [reflexivity|].
+  - destruct ((amt <? 0) || (aget (active s) a - amt <? 0) || (pool s - amt <? 0)); [reflexivity|].
     match goal with |- gap (charge ?s0 ?s1 ?a ?f).1 = _ =>
       destruct (charge_cases s0 s1 a f) as [-> | ->]; [reflexivity|] end.
     unfold gap; simpl. rewrite asum_insert. lia.
-  - destruct (rew s a - amt <? 0); [reflexivity|].
+  - destruct ((amt <? 0) || (rew s a - amt <? 0)); [reflexivity|].
     match goal with |- gap (charge ?s0 ?s1 ?a ?f).1 = _ =>
       destruct (charge_cases s0 s1 a f) as [-> | ->]; reflexivity end.
-  - destruct (rew s a - amt <? 0); [reflexivity|].
+  - destruct ((amt <? 0) || (rew s a - amt <? 0)); [reflexivity|].
     match goal with |- gap (charge ?s0 ?s1 ?a ?f).1 = _ =>
       destruct (charge_cases s0 s1 a f) as [-> | ->]; [reflexivity|] end.
     unfold gap; simpl. rewrite asum_insert. lia.
@@ -66,19 +67,20 @@ Lemma step_donated astr s o :
   donated s <= donated (step astr s o).1 /\
   (is_donate o = false -> donated (step astr s o).1 = donated s).
 Proof.
+  unfold step. destruct (validate o); [|simpl; split; [lia|done]].
   destruct o as [accr|a amt fee|a amt fee|a amt fee|a amt fee|a amt fee]; simpl.
   - destruct (mature (scan_und astr) (height s + 1) (bal s) (pend s)) as [b1 p1].
     destruct (mature (scan_rw astr) (height s + 1) b1 (rpend s)) as [b2 rp1]. simpl. split; intros; lia.
   - destruct ((amt <? 0) || (bal s a - amt <? 0)); [split; intros; simpl; lia|].
     match goal with |- context [charge ?s0 ?s1 ?a ?f] =>
       destruct (charge_cases s0 s1 a f) as [-> | ->] end; simpl; split; intros; lia.
-  - destruct ((aget (active s) a - amt <? 0) || (pool s - amt <? 0)); [split; intros; simpl; lia|].
+  - destruct ((amt <? 0) || (aget (active s) a - amt <? 0) || (pool s - amt <? 0)); [split; intros; simpl; lia|].
     match goal with |- context [charge ?s0 ?s1 ?a ?f] =>
       destruct (charge_cases s0 s1 a f) as [-> | ->] end; simpl; split; intros; lia.
-  - destruct (rew s a - amt <? 0); [split; intros; simpl; lia|].
+  - destruct ((amt <? 0) || (rew s a - amt <? 0)); [split; intros; simpl; lia|].
     match goal with |- context [charge ?s0 ?s1 ?a ?f] =>
       destruct (charge_cases s0 s1 a f) as [-> | ->] end; simpl; split; intros; lia.
-  - destruct (rew s a - amt <? 0); [split; intros; simpl; lia|].
+  - destruct ((amt <? 0) || (rew s a - amt <? 0)); [split; intros; simpl; lia|].
     match goal with |- context [charge ?s0 ?s1 ?a ?f] =>
       destruct (charge_cases s0 s1 a f) as [-> | ->] end; simpl; split; intros; lia.
   - destruct (amt <? 0) eqn:Hneg; simpl; [split; intros; try lia; discriminate|].
@@ -332,19 +334,20 @@ Qed.
 
 Lemma step_matk astr s o : matk (step astr s o).1 = matk s.
 Proof.
+  unfold step. destruct (validate o); [|reflexivity].
   destruct o as [accr|a amt fee|a amt fee|a amt fee|a amt fee|a amt fee]; simpl.
   - destruct (mature (scan_und astr) (height s + 1) (bal s) (pend s)) as [b1 p1].
     destruct (mature (scan_rw astr) (height s + 1) b1 (rpend s)) as [b2 rp1]. reflexivity.
   - destruct ((amt <? 0) || (bal s a - amt <? 0)); [reflexivity|].
     match goal with |- context [charge ?s0 ?s1 ?a ?f] =>
       destruct (charge_proj s0 s1 a f) as [-> | (_ & -> & _)] end; reflexivity.
-  - destruct ((aget (active s) a - amt <? 0) || (pool s - amt <? 0)); [reflexivity|].
+  - destruct ((amt <? 0) || (aget (active s) a - amt <? 0) || (pool s - amt <? 0)); [reflexivity|].
     match goal with |- context [charge ?s0 ?s1 ?a ?f] =>
       destruct (charge_proj s0 s1 a f) as [-> | (_ & -> & _)] end; reflexivity.
-  - destruct (rew s a - amt <? 0); [reflexivity|].
+  - destruct ((amt <? 0) || (rew s a - amt <? 0)); [reflexivity|].
     match goal with |- context [charge ?s0 ?s1 ?a ?f] =>
       destruct (charge_proj s0 s1 a f) as [-> | (_ & -> & _)] end; reflexivity.
-  - destruct (rew s a - amt <? 0); [reflexivity|].
+  - destruct ((amt <? 0) || (rew s a - amt <? 0)); [reflexivity|].
     match goal with |- context [charge ?s0 ?s1 ?a ?f] =>
       destruct (charge_proj s0 s1 a f) as [-> | (_ & -> & _)] end; reflexivity.
   - destruct ((amt <? 0) || (bal s a - amt <? 0)); [reflexivity|].
@@ -355,6 +358,7 @@ Qed.
 (* with exact scans no block ever visits a key of another height *)
 Lemma step_collided astr s o : collided (step astr s o).1 = collided s.
 Proof.
+  unfold step. destruct (validate o); [|reflexivity].
   destruct o as [accr|a amt fee|a amt fee|a amt fee|a amt fee|a amt fee]; simpl.
   - rewrite (mature_nocoll _ _ _ _ (collides_und_false astr _ _)).
     rewrite (mature_nocoll _ _ _ _ (collides_rw_false astr _ _)). simpl.
@@ -363,15 +367,15 @@ Proof.
     match goal with |- context [charge ?s0 ?s1 ?a ?f] =>
       destruct (charge_proj s0 s1 a f) as [-> | (E1 & E2 & E3 & E4 & E5 & E6 & E7 & E8 & E9 & _)] end; [done|].
     by rewrite E9.
-  - destruct ((aget (active s) a - amt <? 0) || (pool s - amt <? 0)); [done|].
+  - destruct ((amt <? 0) || (aget (active s) a - amt <? 0) || (pool s - amt <? 0)); [done|].
     match goal with |- context [charge ?s0 ?s1 ?a ?f] =>
       destruct (charge_proj s0 s1 a f) as [-> | (E1 & E2 & E3 & E4 & E5 & E6 & E7 & E8 & E9 & _)] end; [done|].
     by rewrite E9.
-  - destruct (rew s a - amt <? 0); [done|].
+  - destruct ((amt <? 0) || (rew s a - amt <? 0)); [done|].
     match goal with |- context [charge ?s0 ?s1 ?a ?f] =>
       destruct (charge_proj s0 s1 a f) as [-> | (E1 & E2 & E3 & E4 & E5 & E6 & E7 & E8 & E9 & _)] end; [done|].
     by rewrite E9.
-  - destruct (rew s a - amt <? 0); [done|].
+  - destruct ((amt <? 0) || (rew s a - amt <? 0)); [done|].
     match goal with |- context [charge ?s0 ?s1 ?a ?f] =>
       destruct (charge_proj s0 s1 a f) as [-> | (E1 & E2 & E3 & E4 & E5 & E6 & E7 & E8 & E9 & _)] end; [done|].
     by rewrite E9.
@@ -393,6 +397,7 @@ Lemma step_inv astr p0 rp0 s o :
   inv_und p0 (step astr s o).1 /\ inv_rwd rp0 (step astr s o).1.
 Proof.
   intros Iu Ir Hk.
+  unfold step. destruct (validate o); [|by split].
   destruct o as [accr|a amt fee|a amt fee|a amt fee|a amt fee|a amt fee]; simpl.
   - rewrite (mature_nocoll _ _ _ _ (collides_und_false astr _ _)).
     rewrite (mature_nocoll _ _ _ _ (collides_rw_false astr _ _)). simpl.
@@ -403,17 +408,17 @@ Proof.
     match goal with |- context [charge ?s0 ?s1 ?a ?f] =>
       destruct (charge_proj s0 s1 a f) as [-> | (E1 & E2 & E3 & E4 & E5 & E6 & E7 & E8 & E9 & _)] end; [done|].
     unfold inv_und, inv_rwd. rewrite E1, E3, E4, E5, E6, E7, E8. simpl. done.
-  - destruct ((aget (active s) a - amt <? 0) || (pool s - amt <? 0)); [done|].
+  - destruct ((amt <? 0) || (aget (active s) a - amt <? 0) || (pool s - amt <? 0)); [done|].
     match goal with |- context [charge ?s0 ?s1 ?a ?f] =>
       destruct (charge_proj s0 s1 a f) as [-> | (E1 & E2 & E3 & E4 & E5 & E6 & E7 & E8 & E9 & _)] end; [done|].
     unfold inv_und, inv_rwd. rewrite E1, E3, E4, E5, E6, E7, E8. simpl. split; [|done].
     by apply inv_add.
-  - destruct (rew s a - amt <? 0); [done|].
+  - destruct ((amt <? 0) || (rew s a - amt <? 0)); [done|].
     match goal with |- context [charge ?s0 ?s1 ?a ?f] =>
       destruct (charge_proj s0 s1 a f) as [-> | (E1 & E2 & E3 & E4 & E5 & E6 & E7 & E8 & E9 & _)] end; [done|].
     unfold inv_und, inv_rwd. rewrite E1, E3, E4, E5, E6, E7, E8. simpl. split; [done|].
     by apply inv_add.
-  - destruct (rew s a - amt <? 0); [done|].
+  - destruct ((amt <? 0) || (rew s a - amt <? 0)); [done|].
     match goal with |- context [charge ?s0 ?s1 ?a ?f] =>
       destruct (charge_proj s0 s1 a f) as [-> | (E1 & E2 & E3 & E4 & E5 & E6 & E7 & E8 & E9 & _)] end; [done|].
     unfold inv_und, inv_rwd. rewrite E1, E3, E4, E5, E6, E7, E8. simpl. done.
@@ -472,7 +477,7 @@ Lemma begin_credit astr s accr a :
   let s' := (step astr s (Begin accr)).1 in
   bal s' a - bal s a = paid s' (height s') a + rpaid s' (height s') a.
 Proof.
-  simpl.
+  unfold step. cbn [validate handle].
   destruct (mature (scan_und astr) (height s + 1) (bal s) (pend s)) as [b1 p1].
   destruct (mature (scan_rw astr) (height s + 1) b1 (rpend s)) as [b2 rp1]. simpl.
   rewrite N.eqb_refl. lia.
@@ -508,6 +513,7 @@ Lemma step_rewards astr s o a :
   ((forall x, 0 <= rew s x) -> accr_nonneg o = true -> 0 <= rew (step astr s o).1 a).
 Proof.
   unfold rbook.
+  unfold step. destruct (validate o); [|simpl; split; [lia|intros H _; apply H]].
   destruct o as [accr|a0 amt fee|a0 amt fee|a0 amt fee|a0 amt fee|a0 amt fee]; simpl.
   - destruct (mature (scan_und astr) (height s + 1) (bal s) (pend s)) as [b1 p1].
     destruct (mature (scan_rw astr) (height s + 1) b1 (rpend s)) as [b2 rp1]. simpl. split.
@@ -517,17 +523,19 @@ Proof.
     match goal with |- context [charge ?s0 ?s1 ?a ?f] =>
       destruct (charge_proj s0 s1 a f) as [-> | (_ & _ & _ & _ & _ & _ & _ & _ & _ & -> & -> & ->)] end;
       simpl; (split; [lia|intros H _; apply H]).
-  - destruct ((aget (active s) a0 - amt <? 0) || (pool s - amt <? 0)); [simpl; split; [lia|intros H _; apply H]|].
+  - destruct ((amt <? 0) || (aget (active s) a0 - amt <? 0) || (pool s - amt <? 0)); [simpl; split; [lia|intros H _; apply H]|].
     match goal with |- context [charge ?s0 ?s1 ?a ?f] =>
       destruct (charge_proj s0 s1 a f) as [-> | (_ & _ & _ & _ & _ & _ & _ & _ & _ & -> & -> & ->)] end;
       simpl; (split; [lia|intros H _; apply H]).
-  - destruct (rew s a0 - amt <? 0) eqn:Hlt; [simpl; split; [lia|intros H _; apply H]|].
+  - destruct (amt <? 0); [simpl; split; [lia|intros H _; apply H]|]. simpl.
+    destruct (rew s a0 - amt <? 0) eqn:Hlt; [simpl; split; [lia|intros H _; apply H]|].
     apply Z.ltb_ge in Hlt.
     match goal with |- context [charge ?s0 ?s1 ?a ?f] =>
       destruct (charge_proj s0 s1 a f) as [-> | (_ & _ & _ & _ & _ & _ & _ & _ & _ & -> & -> & ->)] end;
       simpl; [simpl; split; [lia|intros H _; apply H]|].
     unfold fupd. destruct (a =? a0)%N eqn:E; [apply N.eqb_eq in E; subst|]; (split; [lia|intros H _; try apply H; lia]).
-  - destruct (rew s a0 - amt <? 0) eqn:Hlt; [simpl; split; [lia|intros H _; apply H]|].
+  - destruct (amt <? 0); [simpl; split; [lia|intros H _; apply H]|]. simpl.
+    destruct (rew s a0 - amt <? 0) eqn:Hlt; [simpl; split; [lia|intros H _; apply H]|].
     apply Z.ltb_ge in Hlt.
     match goal with |- context [charge ?s0 ?s1 ?a ?f] =>
       destruct (charge_proj s0 s1 a f) as [-> | (_ & _ & _ & _ & _ & _ & _ & _ & _ & -> & -> & ->)] end;
@@ -575,10 +583,9 @@ Lemma nn_fupd2 f n a v : nn f -> 0 <= v -> nn (fupd2 f n a v).
 Proof. intros Hf Hv m x. unfold fupd2. destruct ((m =? n) && (x =? a))%N; [done | apply Hf]. Qed.
 
 Lemma step_nn astr s o :
-  neg_undelegate o = false -> neg_withdraw o = false ->
   nn (und s) -> nn (rwd s) -> nn (und (step astr s o).1) /\ nn (rwd (step astr s o).1).
 Proof.
-  intros Hu Hw Nu Nr.
+  intros Nu Nr. unfold step. destruct (validate o); [|by split].
   destruct o as [accr|a amt fee|a amt fee|a amt fee|a amt fee|a amt fee]; simpl in *.
   - destruct (mature (scan_und astr) (height s + 1) (bal s) (pend s)) as [b1 p1].
     destruct (mature (scan_rw astr) (height s + 1) b1 (rpend s)) as [b2 rp1]. done.
@@ -586,17 +593,19 @@ Proof.
     match goal with |- context [charge ?s0 ?s1 ?a ?f] =>
       destruct (charge_proj s0 s1 a f) as [-> | (E1 & E2 & E3 & E4 & E5 & E6 & E7 & E8 & E9 & _)] end; [done|].
     rewrite E4, E7. done.
-  - destruct ((aget (active s) a - amt <? 0) || (pool s - amt <? 0)); [done|].
+  - destruct (amt <? 0) eqn:Hneg; simpl; [done|]. apply Z.ltb_ge in Hneg.
+    destruct ((aget (active s) a - amt <? 0) || (pool s - amt <? 0)); [done|].
     match goal with |- context [charge ?s0 ?s1 ?a ?f] =>
       destruct (charge_proj s0 s1 a f) as [-> | (E1 & E2 & E3 & E4 & E5 & E6 & E7 & E8 & E9 & _)] end; [done|].
-    rewrite E4, E7. simpl. split; [|done]. apply Z.ltb_ge in Hu.
+    rewrite E4, E7. simpl. split; [|done].
     apply nn_fupd2; [done|]. specialize (Nu (height s + matk s)%N a). lia.
-  - destruct (rew s a - amt <? 0); [done|].
+  - destruct (amt <? 0) eqn:Hneg; simpl; [done|]. apply Z.ltb_ge in Hneg.
+    destruct (rew s a - amt <? 0); [done|].
     match goal with |- context [charge ?s0 ?s1 ?a ?f] =>
       destruct (charge_proj s0 s1 a f) as [-> | (E1 & E2 & E3 & E4 & E5 & E6 & E7 & E8 & E9 & _)] end; [done|].
-    rewrite E4, E7. simpl. split; [done|]. apply Z.ltb_ge in Hw.
+    rewrite E4, E7. simpl. split; [done|].
     apply nn_fupd2; [done|]. specialize (Nr (height s + matk s)%N a). lia.
-  - destruct (rew s a - amt <? 0); [done|].
+  - destruct ((amt <? 0) || (rew s a - amt <? 0)); [done|].
     match goal with |- context [charge ?s0 ?s1 ?a ?f] =>
       destruct (charge_proj s0 s1 a f) as [-> | (E1 & E2 & E3 & E4 & E5 & E6 & E7 & E8 & E9 & _)] end; [done|].
     rewrite E4, E7. done.
@@ -607,27 +616,22 @@ Proof.
 Qed.
 
 Lemma run_nn astr ops : forall s,
-  trig_neg_undelegate ops = false -> trig_neg_withdraw ops = false ->
   nn (und s) -> nn (rwd s) -> nn (und (run astr s ops)) /\ nn (rwd (run astr s ops)).
 Proof.
-  induction ops as [|o ops IH]; intros s Hu Hw Nu Nr; [done|].
-  unfold trig_neg_undelegate, trig_neg_withdraw in *. simpl in Hu, Hw.
-  apply orb_false_elim in Hu as [Hu1 Hu2]. apply orb_false_elim in Hw as [Hw1 Hw2].
-  unfold run in *. simpl. destruct (step_nn astr s o Hu1 Hw1 Nu Nr) as [Nu' Nr']. by apply IH.
+  induction ops as [|o ops IH]; intros s Nu Nr; [done|].
+  unfold run in *. simpl. destruct (step_nn astr s o Nu Nr) as [Nu' Nr']. by apply IH.
 Qed.
 
-(* outside the triggers C12.negative_undelegate / C12.negative_reward_withdrawal and with a genesis
-   whose pending entries are non-negative, every matured payment is non-negative: BeginBlock never
-   takes money from a delegator *)
-Lemma payments_nonneg_partial astr k b pl ac pe rw rp ops :
+(* FULL (since /repo 1d1d85c): from a genesis whose pending entries are non-negative, every matured
+   payment is non-negative: BeginBlock never takes money from a delegator *)
+Lemma payments_nonneg astr k b pl ac pe rw rp ops :
   (1 <= k)%N ->
   (forall n a, 0 <= pget pe n a) -> (forall n a, 0 <= pget rp n a) ->
-  trig_neg_undelegate ops = false -> trig_neg_withdraw ops = false ->
   let s := run astr (genesis k b pl ac pe rw rp) ops in
   forall n a, (1 <= n)%N -> 0 <= paid s n a /\ 0 <= rpaid s n a.
 Proof.
-  intros Hk Hpe Hrp Hu Hw s n a Hn.
-  destruct (run_nn astr ops (genesis k b pl ac pe rw rp) Hu Hw) as [Nu Nr]; [by intros ? ?|by intros ? ?|].
+  intros Hk Hpe Hrp s n a Hn.
+  destruct (run_nn astr ops (genesis k b pl ac pe rw rp)) as [Nu Nr]; [by intros ? ?|by intros ? ?|].
   fold s in Nu, Nr.
   destruct (paid_once astr k b pl ac pe rw rp ops Hk n a) as [P1 P2].
   destruct (rewards_paid_once astr k b pl ac pe rw rp ops Hk n a) as [R1 R2]. fold s in P1, P2, R1, R2.
@@ -649,9 +653,9 @@ Qed.
 
 Definition active_nn (s : st) : Prop := forall x, 0 <= aget (active s) x.
 
-Lemma step_active_nn astr s o : neg_reinvest o = false -> active_nn s -> active_nn (step astr s o).1.
+Lemma step_active_nn astr s o : active_nn s -> active_nn (step astr s o).1.
 Proof.
-  intros Hr Ha.
+  intros Ha. unfold step. destruct (validate o); [|done].
   destruct o as [accr|a amt fee|a amt fee|a amt fee|a amt fee|a amt fee]; simpl in *.
   - destruct (mature (scan_und astr) (height s + 1) (bal s) (pend s)) as [b1 p1].
     destruct (mature (scan_rw astr) (height s + 1) b1 (rpend s)) as [b2 rp1]. done.
@@ -660,15 +664,17 @@ Proof.
     match goal with |- context [charge ?s0 ?s1 ?a ?f] =>
       destruct (charge_cases s0 s1 a f) as [-> | ->] end; [done|].
     intros x. simpl. rewrite aget_insert. destruct (x =? a)%N; [|apply Ha]. specialize (Ha a). lia.
-  - destruct (aget (active s) a - amt <? 0) eqn:Hrem; simpl; [done|]. apply Z.ltb_ge in Hrem.
+  - destruct (amt <? 0); simpl; [done|].
+    destruct (aget (active s) a - amt <? 0) eqn:Hrem; simpl; [done|]. apply Z.ltb_ge in Hrem.
     destruct (pool s - amt <? 0); [done|].
     match goal with |- context [charge ?s0 ?s1 ?a ?f] =>
       destruct (charge_cases s0 s1 a f) as [-> | ->] end; [done|].
     intros x. simpl. rewrite aget_insert. destruct (x =? a)%N; [lia|apply Ha].
-  - destruct (rew s a - amt <? 0); [done|].
+  - destruct ((amt <? 0) || (rew s a - amt <? 0)); [done|].
     match goal with |- context [charge ?s0 ?s1 ?a ?f] =>
       destruct (charge_cases s0 s1 a f) as [-> | ->] end; done.
-  - apply Z.ltb_ge in Hr. destruct (rew s a - amt <? 0); [done|].
+  - destruct (amt <? 0) eqn:Hneg; simpl; [done|]. apply Z.ltb_ge in Hneg.
+    destruct (rew s a - amt <? 0); [done|].
     match goal with |- context [charge ?s0 ?s1 ?a ?f] =>
       destruct (charge_cases s0 s1 a f) as [-> | ->] end; [done|].
     intros x. simpl. rewrite aget_insert. destruct (x =? a)%N; [|apply Ha]. specialize (Ha a). lia.
@@ -677,12 +683,10 @@ Proof.
       destruct (charge_cases s0 s1 a f) as [-> | ->] end; done.
 Qed.
 
-(* outside the trigger C12.negative_reinvest, from a genesis with non-negative active delegations,
-   no active delegation is ever negative (so "pool >= sum active" really covers every delegator) *)
-Lemma active_nonneg_partial astr ops : forall s,
-  trig_neg_reinvest ops = false -> active_nn s -> active_nn (run astr s ops).
+(* FULL (since /repo 1d1d85c): from a genesis with non-negative active delegations no active
+   delegation is ever negative, so "pool >= sum active" covers every single delegator *)
+Lemma active_nonneg astr ops : forall s, active_nn s -> active_nn (run astr s ops).
 Proof.
-  induction ops as [|o ops IH]; intros s Hr Ha; [done|].
-  unfold trig_neg_reinvest in *. simpl in Hr. apply orb_false_elim in Hr as [Hr1 Hr2].
-  unfold run in *. simpl. apply IH; [done|]. by apply step_active_nn.
+  induction ops as [|o ops IH]; intros s Ha; [done|].
+  unfold run in *. simpl. apply IH. by apply step_active_nn.
 Qed.
